@@ -14,6 +14,14 @@ CHECKS = {
         technique="bounded symbolic translation validation: z3 (QF_BV) over interpreted emitted VHDL vs single-source spec",
     ),
 }
+CHECKS["C09"] = dict(
+    category="translation_validation",
+    text="(a) CrossHair executes the real Python methods of Unsigned/Signed/BitVector/Bit symbolically (operand values symbolic, widths <=2 quick / <=3 thorough, every operator x type pair x operand order incl. Python ints) and must report 'Confirmed over all paths' for type/width/value == spec; (b) designs with constant operands are compiled and the emitted literal is compared with the same spec. C02 proves the run-time logic against the same spec functions, so agreement of compile-time and run-time follows.",
+    design_ref="DESIGN.md 3/C09, 2.5, 2.7",
+    note="Trusted: CrossHair/z3, the spec table; widths bounded as stated (one path per operand valuation); divisor != 0; int operands representable in the vector type. 'Not confirmed' counts as inconclusive (exit 2), never as held.",
+    technique="CrossHair symbolic execution of the Python primitives vs single-source spec + z3 check of folded literals",
+    engine="E-PY",
+)
 NA = {}
 manifest = {
     "version": 1,
@@ -26,7 +34,8 @@ manifest = {
         "add_only": True,
     },
     "engines": [
-        {"name": "E-VHDL", "path": "vfw/", "serves_properties": sorted(CHECKS), "kind_free_text": "own VHDL-subset front end + dual-domain (z3 / python int) interpreter of the text the real compiler emits"},
+        {"name": "E-PY", "path": "vfw/chrun.py", "serves_properties": sorted(k for k, v in CHECKS.items() if v.get("engine") == "E-PY"), "kind_free_text": "CrossHair 0.0.110 (z3) symbolic execution of pure-Python units of cohdl with PEP316 contracts generated from the spec table"},
+        {"name": "E-VHDL", "path": "vfw/", "serves_properties": sorted(k for k, v in CHECKS.items() if v.get("engine", "E-VHDL") == "E-VHDL"), "kind_free_text": "own VHDL-subset front end + dual-domain (z3 / python int) interpreter of the text the real compiler emits"},
     ],
     "checks": [],
     "not_applicable": [],
